@@ -18,9 +18,12 @@ RULE = ('case = (project description, config with roles/modes/ignore/block/disab
         'filter/ignore/mode rules exclude at least one graph item; distinct by JSON hash of the case')
 ASSUMPTIONS = ['the graph itself (scheduler.items/dependencies/is_ignored) is taken as given here; its correctness is C21',
                'expected role/mode come from an independent re-implementation of the documented config matching',
-               'expected targets come from lokiverif.project.refgraph.proc_targets (calibrated on ~5000 generated items '
-               'and on the repo test tables); renamed symbols whose original name is disabled/blocked are not asserted',
-               'order is checked for validity w.r.t. graph edges, not against one fixed order']
+               'expected targets come from lokiverif.project.refgraph.proc_targets(true_scopes=True): disable/block keys are '
+               'applied to the true item name of every dependency (ground truth of the project description); renamed '
+               'symbols whose original name is disabled/blocked are not asserted',
+               'order is checked for validity w.r.t. graph edges, not against one fixed order',
+               'functions called from their own module have no dependencies of their own (listed finding, see '
+               'strip_late_dependencies)']
 SHARDS = {'quick': 8, 'thorough': 16}
 BUDGET = {'quick': 60, 'thorough': 1200}
 
@@ -68,6 +71,13 @@ def cases(draw):
         'mode_arg': draw(st.sampled_from([None, None, None, 'other', cfg['config']['default']['mode']])),
         'plan_regex': draw(st.booleans()),
     }
+    if draw(st.integers(0, 3)) == 0:
+        # the usual set-up: the (first) seed is the driver, everything below it a kernel
+        full = (refgraph.resolve_seed(refgraph.Index(proj), cfg['seeds'][0]) or [None])[0]
+        if full is not None:
+            rconf = cfg['config']['routines']
+            hit = [k for k in rconf if refgraph.match_keys(full, [k])]
+            rconf.setdefault(hit[0] if hit else cfg['seeds'][0], {})['role'] = 'driver'
     if set(manifest['filter']) & {'module', 'typedef', 'all'}:
         # caller protocol: files that hold only module/typedef items are fully parsed only with enable_imports
         cfg['config']['default']['enable_imports'] = True
